@@ -113,34 +113,79 @@ class StickyChooser(Chooser):
 
 
 class RetBiasChooser(Chooser):
-    """Race-directed: compute-then-publish windows open when a function of the code under test has computed
-    its value and is about to hand it to its caller, and close when the caller stores it.  Switch away with
-    high probability exactly there (yield kind "ret") and rarely elsewhere."""
+    """Race-directed ("insert one remote operation"): most atomicity violations show when ONE complete operation
+    of another thread lands between two steps of this thread.  At a yield point inside an operation the chooser
+    may switch to another thread, let it run one whole operation (up to its next operation boundary) and then
+    come back.  The probability depends on the kind of yield point: highest where a function of the code under
+    test has just computed its value and is about to hand it to its caller ("ret": compute-then-publish windows),
+    lower between source lines, lowest between bytecode instructions."""
 
-    def __init__(self, rng: random.Random, p_ret: float = 0.5, p_other: float = 0.03):
+    P = {"ret": 0.35, "line": 0.1, "instr": 0.02, "lookup": 0.2, "tap": 0.2}
+
+    def __init__(self, rng: random.Random, scale: float = 1.0):
         self.rng = rng
-        self.p_ret = p_ret
-        self.p_other = p_other
-        self.hold: Optional[int] = None  # thread that was switched to at a return point
+        self.scale = scale
+        self.hold: Optional[int] = None  # thread that was switched to inside an operation
         self.home: Optional[int] = None  # ... and the thread to come back to
+        self.fresh = False
 
     def choose(self, step, cur, runnable, kind=""):
-        # a pre-emption taken at a return point lets the other thread run one whole operation (up to its next
-        # operation boundary) inside the window, then comes back: "something complete happened in between"
         if self.hold is not None:
-            if cur == self.hold and kind != "op" and cur in runnable:
+            if cur == self.hold and cur in runnable and (kind != "op" or self.fresh):
+                self.fresh = False
                 return cur
             home, self.hold, self.home = self.home, None, None
             if home in runnable:
                 return home
-        p = self.p_ret if kind == "ret" else (0.3 if kind == "op" else self.p_other)
-        if cur in runnable and self.rng.random() >= p:
+        if kind == "op" or cur not in runnable:
+            # operation boundary: plain random choice with some stickiness
+            if cur in runnable and self.rng.random() < 0.6:
+                return cur
+            return runnable[self.rng.randrange(len(runnable))]
+        if self.rng.random() >= self.P.get(kind, 0.05) * self.scale:
             return cur
-        others = [t for t in runnable if t != cur] or runnable
+        others = [t for t in runnable if t != cur]
+        if not others:
+            return cur
         nxt = others[self.rng.randrange(len(others))]
-        if kind == "ret" and cur in runnable and nxt != cur:
-            self.hold, self.home = nxt, cur
+        self.hold, self.home = nxt, cur
+        self.fresh = True
         return nxt
+
+
+class InsertAtChooser(Chooser):
+    """Systematic single insertion: the victim thread runs alone; at its k-th yield point *inside* an operation the
+    intruder thread runs one whole operation (up to its next operation boundary), then the victim continues; all
+    other threads run afterwards.  Sweeping k over every yield point of the victim's operation covers the whole
+    "one remote operation lands between two local steps" space for that pair of operations."""
+
+    def __init__(self, victim: int, k: int, intruder: int):
+        self.victim, self.k, self.intruder = victim, k, intruder
+        self.count = 0
+        self.holding = False
+        self.inserted = False
+        self.fresh = False
+
+    def choose(self, step, cur, runnable, kind=""):
+        if self.holding:
+            if cur == self.intruder and cur in runnable and (kind != "op" or self.fresh):
+                # (a thread that had not started yet announces its first operation before running it)
+                self.fresh = False
+                return cur
+            self.holding = False
+            if self.victim in runnable:
+                return self.victim
+        if cur == self.victim and kind != "op":
+            n = self.count
+            self.count += 1
+            if n == self.k and not self.inserted and self.intruder in runnable:
+                self.inserted = True
+                self.holding = True
+                self.fresh = True
+                return self.intruder
+        if self.victim in runnable:
+            return self.victim
+        return runnable[0]
 
 
 class PCTChooser(Chooser):
@@ -177,6 +222,8 @@ def make_chooser(kind: str, rng: random.Random, horizon: int = 400) -> Chooser:
         return StickyChooser(rng, 0.5)
     if kind == "retbias":
         return RetBiasChooser(rng)
+    if kind == "retbias_low":
+        return RetBiasChooser(rng, scale=0.3)
     if kind.startswith("pct"):
         return PCTChooser(rng, int(kind[3:] or 2), horizon)
     raise HarnessError(f"unknown scheduling strategy {kind}")
@@ -363,6 +410,36 @@ def code_objects_of_module(mod: types.ModuleType) -> list[types.CodeType]:
     return sorted(out.values(), key=lambda c: (c.co_firstlineno, c.co_name))
 
 
+def code_objects_of_class(cls: type) -> list[types.CodeType]:
+    """Code objects of the methods / properties defined by one class (incl. name-mangled helpers)."""
+    import inspect
+
+    mod = inspect.getmodule(cls)
+    fname = getattr(mod, "__file__", None)
+    out: dict[int, types.CodeType] = {}
+
+    def add_code(c: types.CodeType) -> None:
+        if c.co_filename != fname or id(c) in out:
+            return
+        out[id(c)] = c
+        for k in c.co_consts:
+            if isinstance(k, types.CodeType):
+                add_code(k)
+
+    for v in list(vars(cls).values()):
+        if isinstance(v, (staticmethod, classmethod)):
+            v = v.__func__
+        if isinstance(v, property):
+            for f in (v.fget, v.fset, v.fdel):
+                if f is not None:
+                    add_code(f.__code__)
+        elif isinstance(v, types.FunctionType):
+            add_code(v.__code__)
+        elif isinstance(getattr(v, "func", None), types.FunctionType):
+            add_code(v.func.__code__)
+    return sorted(out.values(), key=lambda c: (c.co_firstlineno, c.co_name))
+
+
 class LineTracer:
     """Turns events of selected code objects into yield points.
 
@@ -375,7 +452,7 @@ class LineTracer:
         self.sched = sched
         self.codes: list[types.CodeType] = []
         for m in modules:
-            self.codes.extend(code_objects_of_module(m))
+            self.codes.extend(code_objects_of_class(m) if isinstance(m, type) else code_objects_of_module(m))
         self.enabled = False
         self.mon = sys.monitoring
         self.tool = self.mon.DEBUGGER_ID
